@@ -12,6 +12,9 @@ from harness import core
 from harness.project import call, fix
 
 
+
+RULE_EXTRA = ("a parse after an earlier parse result of the same text was edited (by the caller and by the library's relabelling); mixed name / synonym dictionaries; parse outcome judged when the written glycan form is unambiguous.")
+
 def element_symbols():
     """Element and isotope symbols of the bundled table (symbols only; no masses are read here)."""
     syms, iso = [], []
